@@ -29,9 +29,14 @@ func H_C20_Hub() {
 	if b < a {
 		zzvrt.Assume(false) // unordered pairs
 	}
+	// the second operation works on the same service, on another known one, or on a SKI the hub has never seen
+	// (its first lookup inserts a record into the registry while the first operation reads it)
 	xa, xb := skiA, skiA
-	if zzvrt.Bool("op.b.otherski") {
+	switch zzvrt.Choice("op.b.ski", 3) {
+	case 1:
 		xb = skiB
+	case 2:
+		xb = "cccccccccccccccccccccccccccccccccccccccc"
 	}
 	zzvrt.StartAccessLog()
 	go func() { p.doOp(a, xa) }()
